@@ -40,6 +40,11 @@ namespace BitSerializer::Detail
 			return true;
 		}
 
+		if (pos != mStreamPos)
+		{
+			// Reset EOF/fail bits left after reading the last chunk, otherwise `seekg()` has no effect
+			mStream.clear(mStream.rdstate() & std::ios_base::badbit);
+		}
 		if (pos == mStreamPos || !mStream.seekg(static_cast<std::streamoff>(pos)).fail())
 		{
 			mStreamPos = pos;
